@@ -70,6 +70,18 @@ type Plan struct {
 	FiredOp string // "read" / "write" / "sync"
 	Tag     int    // set by the harness (e.g. index of the API call in progress)
 	Log     []string
+	// Trace: record the byte range of every read (ReadAt and Read) in Reads.
+	Trace bool
+	Reads [][2]int64 // [offset, offset+n)
+}
+
+func (p *Plan) traceRead(off int64, n int) {
+	if p == nil || !p.Trace || n <= 0 {
+		return
+	}
+	p.mu.Lock()
+	p.Reads = append(p.Reads, [2]int64{off, off + int64(n)})
+	p.mu.Unlock()
 }
 
 var (
@@ -169,7 +181,9 @@ func (f *File) ReadAt(b []byte, off int64) (int, error) {
 		}
 		return 0, ErrInjected
 	}
-	return f.f.ReadAt(b, off)
+	n, err := f.f.ReadAt(b, off)
+	f.plan.traceRead(off, n)
+	return n, err
 }
 
 func (f *File) WriteAt(b []byte, off int64) (int, error) {
@@ -235,7 +249,10 @@ func (f *File) Read(b []byte) (int, error) {
 	if f == nil {
 		return 0, os.ErrInvalid
 	}
-	return f.f.Read(b)
+	pos, _ := f.f.Seek(0, io.SeekCurrent)
+	n, err := f.f.Read(b)
+	f.plan.traceRead(pos, n)
+	return n, err
 }
 
 func (f *File) Write(b []byte) (int, error) {
